@@ -55,7 +55,7 @@ class Graph:
 
     @staticmethod
     def canon(o):
-        return (tuple(sorted(o.get("replies", []))), tuple(sorted(o.get("gated", []))), bool(o.get("exited", False)))
+        return (tuple(sorted(o.get("replies") or [])), tuple(sorted(o.get("gated") or [])), bool(o.get("exited", False)))
 
     def quiescent(self, s):
         """Quiescent states reachable from s by internal steps only."""
@@ -121,6 +121,15 @@ class Graph:
         cur = self.start()
         for i, (st, ob) in enumerate(zip(script, observations)):
             nx = self.step(cur, tuple(st))
+            if isinstance(ob, dict) and ob.get("unobserved"):
+                # the harness applied the stimulus without observing (burst delivery): every outcome stays possible.
+                # (step() folds to quiescent states, which is what a later observation is compared with; the
+                # non-quiescent intermediate states are covered because the next stimulus of a burst is enabled
+                # in every state of the run)
+                cur = nx
+                if not cur:
+                    return False, i, []
+                continue
             allowed = {self.obs.get(s) for s in nx}
             got = self.canon(ob)
             cur = frozenset(s for s in nx if self.obs.get(s) == got)
